@@ -491,7 +491,9 @@ func (dsc *dataStoreCommand) addInt(keyName string, delta int64) (value int64, e
 
 		var err error
 		value, err = strconv.ParseInt(string(strBytes), 10, 64)
-		if err != nil {
+		// only the canonical decimal form counts as an integer (no "+5", "012", "-0")
+		canonical := strconv.FormatInt(value, 10) == string(strBytes)
+		if err != nil || !canonical {
 			exists = VALUE_WRONG_FORMAT
 			return
 		}
@@ -2113,7 +2115,9 @@ func (dsc *dataStoreCommand) fieldAddInt(keyName, fieldName string, delta int64)
 	if exists {
 		var err error
 		oldInt, err := strconv.ParseInt(oldVal.(string), 10, 64)
-		if err != nil {
+		// only the canonical decimal form counts as an integer (no "+5", "012", "-0")
+		canonical := strconv.FormatInt(oldInt, 10) == oldVal.(string)
+		if err != nil || !canonical {
 			ve = VALUE_WRONG_FORMAT
 			return
 		}
